@@ -88,6 +88,12 @@ type Params struct {
 	// (defaults: Now − 10 years, Now + 10 years). Hop expiry is clamped to
 	// SignerNotAfter by the real extender.
 	SignerNotBefore, SignerNotAfter time.Time
+	// ShortSignerPct: share (percent) of the ASes whose signing certificate is
+	// in its last hours: it expires 20-180 minutes after Now, so that the real
+	// extender has to shorten the hop fields it issues (the
+	// SegmentExpirationDeficient branch). Which ASes: a fixed function of the
+	// ISD-AS number.
+	ShortSignerPct int
 }
 
 func (p Params) withDefaults(nCores int) Params {
@@ -145,6 +151,8 @@ type Node struct {
 	PrivKey *ecdsa.PrivateKey
 	// Signer is the real trust.Signer over PrivKey.
 	Signer trust.Signer
+	// ShortSigner: the signing certificate is in its last hours (Params.ShortSignerPct).
+	ShortSigner bool
 
 	maxExp uint8
 }
@@ -204,14 +212,19 @@ func New(topo *simtopo.Topo, params Params) (*Net, error) {
 		}
 		skid := sha256.Sum256(der)
 		node := &Node{AS: as, Intfs: intfs, PrivKey: priv, maxExp: n.P.ExpTimeMax}
+		notAfter := n.P.SignerNotAfter
+		if hsh := (uint64(ia) * 0x9e3779b97f4a7c15) >> 20; n.P.ShortSignerPct > 0 && int(hsh%100) < n.P.ShortSignerPct {
+			notAfter = n.P.Now.Add(time.Duration(20+(hsh/100)%160) * time.Minute)
+			node.ShortSigner = true
+		}
 		node.Signer = trust.Signer{
 			PrivateKey:    priv,
 			Algorithm:     signed.ECDSAWithSHA256,
 			IA:            ia,
 			TRCID:         cppki.TRCID{ISD: ia.ISD(), Base: 1, Serial: 1},
 			SubjectKeyID:  skid[:20],
-			Expiration:    n.P.SignerNotAfter,
-			ChainValidity: cppki.Validity{NotBefore: n.P.SignerNotBefore, NotAfter: n.P.SignerNotAfter},
+			Expiration:    notAfter,
+			ChainValidity: cppki.Validity{NotBefore: n.P.SignerNotBefore, NotAfter: notAfter},
 		}
 		node.Extender = &beaconing.DefaultExtender{
 			IA:                   ia,
